@@ -17,12 +17,18 @@ CHECKS = {
  "C10": ("TLC checks, for every state of the subspace and every remaining variable, that the recorded Petri net / restricted net / percolated network enables exactly the moves of the update functions, on all two-variable and random 3-6 variable networks.", "4/C10"),
  "C11": ("TLC recomputes the least fixed point of value propagation for every recorded percolate_space / strict / conflicts / LDOI / single-driver call (all subspaces of all two-variable networks; random ones on 3-6 variables) and model-checks idempotence and trap preservation as theorems.", "4/C11"),
  "C15": ("Model checking with size/level/stack limits, max_motifs_per_node values and the k-th solver call failing, on all two-variable networks (valid partial diagram, fresh caches, return-value contract in every micro-state); TLC-generated and random limited histories and a solver-fault enumeration are replayed in the library and every event is recomputed by TLC, including the resumed call.", "4/C15"),
+ "C13": ("TLC checks Termination (liveness, weak fairness) of the AttractorTest model for every pivot / avoid set / size-oracle answer and that every started driver call of the SD model returns; recorded runs of all operations execute under a watchdog and every main-loop iteration of symbolic_attractor_test (guarded hook) is checked by TLC to be a legal, progressing step; executed loop back-edges are bounded.", "4/C13"),
+ "C16": ("Twin validation: every history is re-run with pickle round trips / reclaim_node_data inserted at every position and TLC requires identical projections and outputs after every corresponding call; inserted-run traces are also validated event by event (pickle and reclaim are stuttering steps of the model).", "4/C16"),
+ "C17": ("Twin validation under variable permutation + negation + renaming + reformulated update functions + bnet/aeon/sbml: isomorphic full diagrams, same minimal trap spaces and attractor sets under the transformation (TLC), and every presentation run validated against the transformed truth tables.", "4/C17"),
+ "C18": ("Disjoint unions and input-fixed networks: TLC validates library results on composed truth tables, and the 'below' twin relation checks the input-conditioned sub-diagram; the published-model clause is not covered by TLC (explicit-state limit) and is stated as such.", "4/C18"),
+ "C19": ("Twin validation with the identity relation on everything logged: the same history in fresh interpreters under different PYTHONHASHSEED values, twice in one process and after unrelated library activity.", "4/C19"),
  "C20": ("DepthExact / IndexExact / contiguous ids checked by TLC on every logged state of TLC-generated and random histories (incl. skip operations and pickling), and ids/depths/index compared with the model after every call.", "4/C20"),
 }
 NOT_YET = {}
-ENGINE = {"C06": "tla-control", "C07": "tla-control", "C09": "tla-pure", "C10": "tla-pure", "C11": "tla-pure"}
+ENGINE = {"C16": "tla-twin", "C17": "tla-twin", "C18": "tla-twin", "C19": "tla-twin", "C06": "tla-control", "C07": "tla-control", "C09": "tla-pure", "C10": "tla-pure", "C11": "tla-pure"}
 TECH = {"tla-sd": "explicit TLA+ spec (BoolNet/SD) model-checked with TLC + TLC trace validation of recorded library runs (SDTrace) + TLC-generated call histories replayed in the library",
         "tla-pure": "explicit TLA+ definitions (BoolNet/PureTrace) evaluated by TLC on every recorded call (trace validation) + TLC-checked theorems (MC_Theorems)",
+        "tla-twin": "relational TLA+ spec (Twin.tla) checked by TLC on pairs of recorded library runs, plus SDTrace validation of each run",
         "tla-control": "explicit TLA+ definitions of succession control (ControlTrace over BoolNet) evaluated by TLC on every recorded succession_control call"}
 
 def main():
@@ -51,11 +57,13 @@ def main():
          "hooks": {"guard": "BIOBALM_VERIF",
                    "enable": "BIOBALM_VERIF=1 in the environment of the harness processes (pure-Python library, no build step); the recorder wraps the library from outside",
                    "baseline_off_cmd": "/verif/tools_baseline.sh",
-                   "source_commits": [], "add_only": True},
+                   "source_commits": ["c91ad8c"], "add_only": True},
          "engines": [{"name": "tla-sd", "path": "/verif/spec", "serves_properties": sorted(p for p in CHECKS if ENGINE.get(p, "tla-sd") == "tla-sd"),
                       "kind_free_text": "TLA+ specification (BoolNet.tla semantic oracle, SD.tla state machine, MC_SD.tla exhaustive small scope, SDTrace.tla trace validation) + Python recorder/driver"},
                      {"name": "tla-pure", "path": "/verif/spec/PureTrace.tla", "serves_properties": ["C09", "C10", "C11"],
                       "kind_free_text": "per-call validation of pure functions against BoolNet.tla definitions; MC_Theorems.tla"},
+                     {"name": "tla-twin", "path": "/verif/spec/Twin.tla", "serves_properties": ["C16", "C17", "C18", "C19"],
+                      "kind_free_text": "lock-step relational validation of two recorded executions"},
                      {"name": "tla-control", "path": "/verif/spec/ControlTrace.tla", "serves_properties": ["C06", "C07"],
                       "kind_free_text": "succession control re-derived by TLC from the full succession diagram"}],
          "checks": checks,
